@@ -173,7 +173,9 @@ def source_text(tp, src, labels, rows):
 
 
 def _nexml_pool(tp):
-    return POOL[tp]
+    # every symbol of the pool becomes a <state>; for standard data only the digits (a '?' or '-' declared as a
+    # fundamental state would be an artificial alphabet)
+    return "0123456789" if tp == "standard" else POOL[tp]
 
 
 def routes_for(tp):
@@ -224,6 +226,10 @@ def admissible(target, tp, labels, rd):
             return False
     if schema == "fasta" and min(lens) == 0:
         return False
+    if schema in ("phylip", "fasta") and any(c[0] == "m" for _, cells in rd for c in cells):
+        return False        # one column per state: a state without a symbol of its own cannot be written
+    if target == "nexus-unquoted_underscores" and any(" " in l for l in labels):
+        return False        # blanks become unquoted underscores, which the paired reader option keeps
     if schema == "phylip":
         if "strict" in target:
             if any(len(l) > 10 for l in labels):
@@ -255,8 +261,6 @@ def eval_job(job):
     labels = [l for l, _ in rd]
     if not admissible(target, tp, [t._label for t in m._taxon_namespace._taxa], rd):
         return [["skip", "input not admissible for the target format"]]
-    if schema == "nexml" and tp == "standard" and any(c[0] == "m" for _, cells in rd for c in cells):
-        pass
     try:
         with time_limit(20):
             text = m.as_string(schema=schema, **wkw)
@@ -354,6 +358,7 @@ DS_TARGETS = {
     "dataset-nexus": ("nexus", {}),
     "dataset-nexus-titles=False": ("nexus", {"suppress_block_titles": False}),
     "dataset-nexml": ("nexml", {}),
+    "dataset-nexml-seqs": ("nexml", {"markup_as_sequences": True}),
 }
 
 
@@ -492,7 +497,7 @@ def jobs_datasets(tier):
                 specs.append({"namespaces": nss, "matrices": [], "treelists": tls})
     for spec in specs:
         for target in DS_TARGETS:
-            if target == "dataset-nexml" and any(m["type"] not in SUPPORT["nexml"] for m in spec["matrices"]):
+            if target.startswith("dataset-nexml") and any(m["type"] not in SUPPORT["nexml"] for m in spec["matrices"]):
                 continue
             out.append(("datasets@namespaces<=3", {"dataset": spec, "target": target}, len(spec["namespaces"]) >= 2))
     return out
@@ -508,30 +513,73 @@ SCOPES = {
                          "ASCII only), plus field-filling label triples for strict PHYLIP", True),
     "roundtrip@multistate": ("dna/standard/protein matrices parsed from NEXUS with {..} and (..) tokens (sequential and interleaved) x 11 targets", True),
     "datasets@namespaces<=3": ("data sets with 1-3 namespaces x 4 labelling patterns (distinct, none, equal, mixed) x 5 population patterns x "
-                               "{NEXUS default titles, NEXUS suppress_block_titles=False, NeXML}; non-trivial = >= 2 namespaces", True),
+                               "{NEXUS default titles, NEXUS suppress_block_titles=False, NeXML cells, NeXML seqs}; non-trivial = >= 2 namespaces", True),
 }
 
 
-def all_jobs(tier):
-    return jobs_main(tier) + jobs_labels(tier) + jobs_multistate(tier) + jobs_datasets(tier)
+def jobs_random(ctx):
+    out = []
+    N = 30 if ctx.tier == "quick" else 400
+    for h in range(N):
+        rng = rng_for(ctx, 900 + h)
+        tp = list(POOL)[h % len(POOL)]
+        n, w = rng.randint(1, 4), rng.randint(1, 9)
+        pool = POOL[tp]
+        if pool is None:
+            rows = [[rng.choice(CONT + [round(rng.uniform(-5, 5), rng.randint(0, 6)), float(rng.randint(-3, 3))]) for _ in range(w)] for _ in range(n)]
+        else:
+            rows = [[rng.choice(pool) for _ in range(w)] for _ in range(n)]
+        labels = PLAIN[:n]
+        for route in routes_for(tp):
+            r2 = rows
+            if route.startswith("parsed:nexml") and tp == "standard":
+                r2 = [[t if t not in "-?" else "0" for t in r] for r in rows]
+            for target in MAIN_TARGETS:
+                if tp in SUPPORT[TARGETS[target][0]]:
+                    out.append(("roundtrip@random", mk(tp, route, target, labels, r2), n >= 2 and w >= 2))
+    return out
+
+
+SCOPES["roundtrip@random"] = ("seeded random contents (1-4 taxa x 1-9 columns over the type's full symbol set / assorted floats) x every "
+                              "route x 11 targets; 30 contents quick, 400 thorough", False)
+
+
+def all_jobs(ctx):
+    tier = ctx.tier
+    return jobs_main(tier) + jobs_labels(tier) + jobs_multistate(tier) + jobs_datasets(tier) + jobs_random(ctx)
 
 
 def t2(ctx):
-    items = all_jobs(ctx.tier)
+    items = all_jobs(ctx)
     for nm, (rule, exh) in SCOPES.items():
         ctx.scope(nm, rule=rule, exhaustive=exh)
-    results = pmap(_work, items, chunksize=32)
+    # parsing "(AG)"-style tokens adds symbol-less states to the *global* fixed alphabets of the process (observed on the
+    # unchanged tree), so the multistate scope runs last and in worker processes of its own
+    first = [it for it in items if it[0] != "roundtrip@multistate"]
+    last = [it for it in items if it[0] == "roundtrip@multistate"]
+    items = first + last
+    results = pmap(_work, first, chunksize=32) + pmap(_work, last, chunksize=4)
     skipped = {}
     for (scope, job, nontrivial), res in zip(items, results):
         key = dataset_key(job) if "dataset" in job else job_key(job)
+        tag = input_tag(job)
         if res and res[0][0] == "skip":
             skipped[res[0][1][:60]] = skipped.get(res[0][1][:60], 0) + 1
             continue
         ctx.case(scope, key, nontrivial=nontrivial, sample=key)
         for clause, det in res:
-            ctx.fail("%s.%s" % (job["target"], clause), {"key": key, "job": job, "scope": scope}, detail="%s: %s" % (key, det))
+            ctx.fail("%s%s.%s" % (job["target"], tag, clause), {"key": key, "job": job, "scope": scope}, detail="%s: %s" % (key, det))
     for why, n in sorted(skipped.items()):
         ctx.note("%d generated cases not evaluated: %s" % (n, why))
+
+
+def input_tag(job):
+    """input classes that get their own monitor names (so that a finding can be pinned by name)"""
+    if job.get("route") == "from_dict+extra-taxon":
+        return "+unused-taxon"
+    if "dataset" not in job and any(len(t) > 1 and t[0] in "{(" for r in job["rows"] for t in r if isinstance(t, str)):
+        return "+multistate"
+    return ""
 
 
 def replay(ctx, rec):
@@ -539,7 +587,7 @@ def replay(ctx, rec):
     res = eval_dataset(job) if "dataset" in job else eval_job(job)
     hit = False
     for clause, det in res:
-        name = "%s.%s" % (job["target"], clause)
+        name = "%s%s.%s" % (job["target"], input_tag(job), clause)
         print("  replay: %s: %s" % (name, det))
         if name == rec["obligation"]:
             hit = True
